@@ -92,6 +92,22 @@ func runC16(c *Ctx) {
 				if fn == nil {
 					return true
 				}
+				// (the read may sit in a helper of the package that hands the bytes back: readWithModTime(name))
+				if fn.Pkg() == p.Types {
+					for _, hfd := range allFuncDecls(p) {
+						if p.TypesInfo.Defs[hfd.Name] != types.Object(fn) || hfd.Body == nil || hfd == fd {
+							continue
+						}
+						ast.Inspect(hfd.Body, func(m ast.Node) bool {
+							if hc, ok := m.(*ast.CallExpr); ok {
+								if hfn := calleeOf(p.TypesInfo, hc); hfn != nil && (fullName(hfn) == "io.ReadAll" || fullName(hfn) == "os.ReadFile") {
+									readsFile = true
+								}
+							}
+							return true
+						})
+					}
+				}
 				switch fullName(fn) {
 				case "io.ReadAll", "os.ReadFile":
 					readsFile = true
